@@ -40,8 +40,12 @@ pub struct Prio2 {
 impl Prio2 {
     /// Returns an instance of the VDAF for the given input length.
     pub fn new(input_len: usize) -> Result<Self, VdafError> {
-        let n = (input_len + 1).next_power_of_two();
-        if let Ok(size) = u32::try_from(2 * n) {
+        let size = input_len
+            .checked_add(1)
+            .and_then(usize::checked_next_power_of_two)
+            .and_then(|n| n.checked_mul(2))
+            .ok_or_else(|| VdafError::Uncategorized("input size exceeds memory capacity".into()))?;
+        if let Ok(size) = u32::try_from(size) {
             if size > FieldPrio2::generator_order() {
                 return Err(VdafError::Uncategorized(
                     "input size exceeds field capacity".into(),
